@@ -21,14 +21,15 @@ BatchOK(r) ==
       THEN Contract(r.enc, r.max, r.out)
       ELSE r.out = (IF r.enc = <<>> THEN <<>> ELSE <<r.enc>>)     \* nothing to split: handed over as it is
 
-\* Limit table.  size = bytes of message data; the encoded message adds one type byte.
+\* Limit table.  size = bytes of message data; the message as transported adds `overhead`
+\* bytes (the packet type character; for JSON-P form bodies also "d=").
 \*   inbound to the server (dir = "c2s"):
 \*     size + 1 <= limit, or limit disabled (0)   => delivered, connection stays open
 \*     size > limit                               => not delivered, connection closed, and the server
 \*                                                   did not swallow the body (consumed <= limit + slack)
 \*   outbound to the client (dir = "s2c"): everything within the announced limit is accepted
 LimitOK(r) ==
-    LET within == (r.limit = 0 \/ r.size + 1 <= r.limit)
+    LET within == (r.limit = 0 \/ r.size + r.overhead <= r.limit)
         beyond == (r.limit > 0 /\ r.size > r.limit) IN
     /\ within => (r.delivered /\ ~r.closed)
     /\ (beyond /\ r.dir = "c2s") => (~r.delivered /\ r.closed /\ r.consumed <= r.limit + r.slack)
